@@ -1,8 +1,8 @@
 // Command workload is the program the C20 harness builds with `go build -race` and runs once per
-// case: k goroutines, each working ONLY on instances it created itself, first one after the other
-// (the sequential reference), then all at once.  It prints, on stdout,
+// case: k goroutines, each working ONLY on instances it created itself, first all at once, then one
+// after the other (the sequential reference, computed afterwards so that it cannot warm up caches).  It prints, on stdout,
 //
-//	seq <g> <digest>                      the sequential result of goroutine g's workload
+//	seq <g> <digest>                      the sequential result of goroutine g's first iteration
 //	conc <g> same | differ iter=<i> | panic <msg>
 //	done
 //
@@ -126,27 +126,19 @@ func main() {
 		fmt.Fprintln(os.Stderr, "unknown workload", *name)
 		os.Exit(2)
 	}
-	privSeed := func(g int) uint64 { return *seed*1000003 + uint64(g)*7919 + 1 }
+	// goroutine g, iteration i works on inputs derived from (seed, g, i): sizes and names vary between
+	// iterations, so caches that are filled on first use keep being written during the run
+	privSeed := func(g, i int) uint64 { return *seed*1000003 + uint64(g)*7919 + uint64(i)*104729 + 1 }
 
-	// 1. sequential reference (one goroutine after the other, here on the main goroutine)
-	want := make([]string, *k)
-	for g := 0; g < *k; g++ {
-		want[g] = pick(g)(privSeed(g)).digest()
-		fmt.Printf("seq %d %s\n", g, want[g])
-	}
-	// the reference itself must be a function of the seed only (else "same results" means nothing)
-	for g := 0; g < *k; g++ {
-		if again := pick(g)(privSeed(g)).digest(); again != want[g] {
-			fmt.Printf("nondeterministic %d %s %s\n", g, want[g], again)
-		}
-	}
-
-	// 2. the same work, all goroutines at once
+	// 1. all goroutines at once.  This phase comes FIRST: a sequential warm-up would fill every
+	// write-once package-level cache (memo tables, grown buffers) before the goroutines start and hide it.
+	got := make([][]string, *k)
 	verdict := make([]string, *k)
 	var wg sync.WaitGroup
 	start := make(chan struct{})
 	for g := 0; g < *k; g++ {
 		wg.Add(1)
+		got[g] = make([]string, *iters)
 		go func(g int) {
 			defer wg.Done()
 			defer func() {
@@ -156,17 +148,36 @@ func main() {
 				}
 			}()
 			<-start
-			w := pick(g)
-			verdict[g] = "same"
-			for i := 0; i < *iters; i++ {
-				if got := w(privSeed(g)).digest(); got != want[g] && verdict[g] == "same" {
-					verdict[g] = fmt.Sprintf("differ iter=%d", i)
-				}
+			for j := 0; j < g; j++ { // staggered starts
+				runtime.Gosched()
 			}
+			w := pick(g)
+			for i := 0; i < *iters; i++ {
+				got[g][i] = w(privSeed(g, i)).digest()
+				runtime.Gosched()
+			}
+			verdict[g] = "same"
 		}(g)
 	}
 	close(start)
 	wg.Wait()
+
+	// 2. the sequential reference: the same work, one goroutine after the other (here, afterwards, on
+	// the main goroutine), twice — it must be a function of the seed only, else "same results" means nothing
+	for g := 0; g < *k; g++ {
+		for i := 0; i < *iters; i++ {
+			want := pick(g)(privSeed(g, i)).digest()
+			if i == 0 {
+				fmt.Printf("seq %d %s\n", g, want)
+				if again := pick(g)(privSeed(g, i)).digest(); again != want {
+					fmt.Printf("nondeterministic %d %s %s\n", g, want, again)
+				}
+			}
+			if verdict[g] == "same" && got[g][i] != want {
+				verdict[g] = fmt.Sprintf("differ iter=%d", i)
+			}
+		}
+	}
 	for g := 0; g < *k; g++ {
 		fmt.Printf("conc %d %s\n", g, verdict[g])
 	}
